@@ -2159,3 +2159,17 @@ def replay(ctx, pid, mod, rep):
     if "ok" in r:
         print("correspondence:", compare_parts(PARTS[pid])(case, r["ok"], lean.run_driver("drv_ctr", [lines(case)])[0]))
     return 1 if ("ok" in r and r["ok"]["oracle"]) or "timeout" in r else 0
+
+
+# --------------------------------------------------------------------------- translated tie (shared by C06, C07, C20)
+def translate(ctx):
+    """regenerate Gen/TocFns.lean from container/interface.py and container/wrappers.py of the checked tree (see
+    harness/translate_c06.py); the modules Bridge/TocFns*.lean prove the generated definitions equal to the
+    functions of Model/Container.lean. One generator for the three properties: they share the model."""
+    from .. import translate_c06
+
+    ctx.trusted.append("harness/translate_c06.py (Python ast -> Lean) for the bookkeeping classes of container/interface.py "
+                       "(TOCPackages, TOCSchemas, TOCLinks, MetadorMeta) and the MetadorGroup methods of container/wrappers.py, "
+                       "with its value dictionary lean/MetadorModel/Py/CtrPy.lean; bridge theorems (Bridge/TocFns*.lean) "
+                       "re-checked on every run")
+    return translate_c06.write(lean)
